@@ -1488,30 +1488,85 @@ def _prechecks(repo):
     return list(out.values())
 
 
+_READ_NAMES = ('read', 'read_bytes', 'readinto', 'pread')
+_CUR = {}              # repo / fn being analysed by precheck()
+_LOCAL_CONSTS = {}     # set per analysed function by precheck(): name -> int / bytes constant (single assignment)
+
+
+def _small_int(e):
+    """Integer value of a slice bound: literal, local int constant, or len(<local bytes constant>)."""
+    if e is None:
+        return 0
+    if isinstance(e, ast.Constant) and isinstance(e.value, int) and not isinstance(e.value, bool):
+        return e.value
+    if isinstance(e, ast.Name) and isinstance(_LOCAL_CONSTS.get(e.id), int):
+        return _LOCAL_CONSTS[e.id]
+    if isinstance(e, ast.Call) and astx.call_name(e) == 'len' and len(e.args) == 1:
+        a = e.args[0]
+        if isinstance(a, ast.Constant) and isinstance(a.value, (bytes, str)):
+            return len(a.value)
+        if isinstance(a, ast.Name) and isinstance(_LOCAL_CONSTS.get(a.id), bytes):
+            return len(_LOCAL_CONSTS[a.id])
+    return None
+
+
+def _returns_file_bytes(repo, fn, depth=0):
+    """True if every return of module-level function *fn* hands back the result of a file read."""
+    rets = [st for st in astx.walk_stmts(fn.node.body) if isinstance(st, ast.Return)]
+    if not rets or depth > 2:
+        return False
+    ctx = None
+    for r in rets:
+        v = r.value
+        if isinstance(v, ast.Name):
+            ctx = ctx or Ctx(fn)
+            v = ctx.rd.value(ctx.node_of(r)[0], v.id)
+        if not (isinstance(v, ast.Call) and isinstance(v.func, ast.Attribute) and v.func.attr in _READ_NAMES):
+            return False
+    return True
+
+
+def _is_file_read(repo, fn, v):
+    """Is expression *v* (in function *fn*) the raw leading bytes of a file?"""
+    if not isinstance(v, ast.Call):
+        return False
+    if isinstance(v.func, ast.Attribute) and v.func.attr in _READ_NAMES:
+        return True
+    if isinstance(v.func, ast.Name):
+        h = fn.module.funcs.get(v.func.id)
+        return h is not None and h is not fn and _returns_file_bytes(repo, h)
+    return False
+
+
 def _volatile_uses(e, header_names, tainted):
     """Sub-expressions of *e* whose value depends on file bytes/sizes that change while a commit is written."""
     bad = []
     for n in astx.walk(e):
         if isinstance(n, ast.Name) and n.id in tainted and isinstance(n.ctx, ast.Load):
             bad.append(n)
-        if isinstance(n, ast.Name) and n.id in header_names and isinstance(n.ctx, ast.Load):
+        is_hdr = isinstance(n, ast.Name) and n.id in header_names and isinstance(n.ctx, ast.Load)
+        if not is_hdr and isinstance(n, ast.Call) and _CUR and _is_file_read(_CUR['repo'], _CUR['fn'], n):
+            par = getattr(n, '_parent', None)
+            # a read whose result is only bound to a name (tracked as header name) or returned is not a use
+            is_hdr = not (isinstance(par, (ast.Assign, ast.AnnAssign, ast.Return, ast.Expr)) and
+                          getattr(par, 'value', None) is n)
+        if is_hdr:
             par = getattr(n, '_parent', None)
             ok = False
             if isinstance(par, ast.Subscript) and par.value is n:
                 sl = par.slice
-                if isinstance(sl, ast.Slice) and sl.step is None and \
-                        (sl.lower is None or (isinstance(sl.lower, ast.Constant) and isinstance(sl.lower.value, int)
-                                              and 0 <= sl.lower.value)) and \
-                        isinstance(sl.upper, ast.Constant) and isinstance(sl.upper.value, int) and \
-                        0 <= sl.upper.value <= MAGIC_LEN:
-                    ok = True
-                elif isinstance(sl, ast.Constant) and isinstance(sl.value, int) and 0 <= sl.value < MAGIC_LEN:
-                    ok = True
+                if isinstance(sl, ast.Slice) and sl.step is None:
+                    lo, hi = _small_int(sl.lower), _small_int(sl.upper) if sl.upper is not None else None
+                    ok = lo is not None and hi is not None and 0 <= lo and 0 <= hi <= MAGIC_LEN
+                else:
+                    ix = _small_int(sl)
+                    ok = ix is not None and 0 <= ix < MAGIC_LEN
             elif isinstance(par, ast.Attribute) and par.attr == 'startswith' and \
-                    isinstance(getattr(par, '_parent', None), ast.Call) and len(par._parent.args) == 1 and \
-                    isinstance(par._parent.args[0], ast.Constant) and \
-                    isinstance(par._parent.args[0].value, bytes) and len(par._parent.args[0].value) <= MAGIC_LEN:
-                ok = True
+                    isinstance(getattr(par, '_parent', None), ast.Call) and len(par._parent.args) == 1:
+                a0 = par._parent.args[0]
+                pref = a0.value if isinstance(a0, ast.Constant) else \
+                    _LOCAL_CONSTS.get(a0.id) if isinstance(a0, ast.Name) else None
+                ok = isinstance(pref, bytes) and len(pref) <= MAGIC_LEN
             elif isinstance(par, ast.Call) and astx.callee_attr(par) == 'len':
                 ok = True
             if not ok:
@@ -1527,13 +1582,25 @@ def precheck(repo, out):
         g = ctx.g
         header_names, sizes, tainted, safe, consts = set(), set(), set(), set(), {}
         stmts = list(astx.walk_stmts(fn.node.body))
+        _LOCAL_CONSTS.clear()
+        _CUR.update(repo=repo, fn=fn)
+        nassign = {}
+        for st in stmts:
+            for t in astx.assigned_targets(st):
+                if isinstance(t, ast.Name):
+                    nassign[t.id] = nassign.get(t.id, 0) + 1
+        for st in stmts:
+            if isinstance(st, ast.Assign) and len(st.targets) == 1 and isinstance(st.targets[0], ast.Name) and \
+                    nassign.get(st.targets[0].id) == 1 and isinstance(st.value, ast.Constant) and \
+                    isinstance(st.value.value, (int, bytes)) and not isinstance(st.value.value, bool):
+                _LOCAL_CONSTS[st.targets[0].id] = st.value.value
         for _ in range(3):      # small fixpoint over straight assignments
             for st in stmts:
                 if not isinstance(st, (ast.Assign, ast.AnnAssign, ast.AugAssign)) or getattr(st, 'value', None) is None:
                     continue
                 tg = [t.id for t in astx.assigned_targets(st) if isinstance(t, ast.Name)]
                 v = st.value
-                if isinstance(v, ast.Call) and astx.callee_attr(v) in ('read', 'read_bytes', 'readinto', 'pread'):
+                if _is_file_read(repo, fn, v):
                     header_names.update(tg)
                 elif any(isinstance(c, ast.Call) and astx.callee_attr(c) in _SIZE_FUNCS + ('stat', 'fstat')
                          for c in astx.calls(v)) or astx.mentions(v, 'st_size'):
@@ -1689,6 +1756,11 @@ _DELETES = ("        if self.connection:\n" + "".join(
     f"            self.connection.execute(\"DELETE FROM {t}\")\n" for t in (
         'global_iterations', 'driver_iterations', 'driver_derivatives', 'problem_cases', 'system_iterations',
         'solver_iterations', 'driver_metadata', 'system_metadata', 'solver_metadata')))
+
+_READ_HELPER = (RU, "def check_path(path, includes, excludes, include_all_path=False):",
+                "def _read_leading_bytes(filename, nbytes):\n    with open(filename, 'rb') as fd:\n"
+                "        return fd.read(nbytes)\n\n\n"
+                "def check_path(path, includes, excludes, include_all_path=False):")
 
 selftest(
     'C18',
@@ -1912,6 +1984,15 @@ selftest(
     Mutant('precheck-volatile-through-local', RU, "    if header[:16] != b'SQLite format 3\\x00':",
            "    magic = header[:16]\n    page = header[16:18]\n"
            "    if not magic == b'SQLite format 3\\x00' or page == b'\\x00\\x00':", 'C18.precheck'),
+    Mutant('precheck-magic-includes-page-size', RU,
+           "    with open(filename, 'rb') as fd:\n        header = fd.read(100)\n\n"
+           "    if header[:16] != b'SQLite format 3\\x00':",
+           "    magic = b'SQLite format 3\\x00\\x10\\x00\\x01\\x01'\n    header = _read_leading_bytes(filename, 100)\n\n"
+           "    if not header[:len(magic)] == magic:", 'C18.precheck', also=[_READ_HELPER]),
+    Mutant('precheck-helper-returns-page-count', RU,
+           "    if header[:16] != b'SQLite format 3\\x00':",
+           "    if header[:16] != b'SQLite format 3\\x00' or _read_leading_bytes(filename, 100)[28:32] == b'\\x00' * 4:",
+           'C18.precheck', also=[_READ_HELPER]),
     # ---- writers
     Mutant('writers-reader-repairs-file', RDR, "        cur.execute('select * from global_iterations')\n",
            "        cur.execute('DELETE FROM global_iterations WHERE rowid IS NULL')\n"
@@ -1995,6 +2076,12 @@ selftest(
          also=[(RU, "    if header[:16] != b'SQLite format 3\\x00':",
                 "    magic = header[:16]\n    if not magic == b'SQLite format 3\\x00':"),
                (RU, "        header = fd.read(100)", "        header = fd.read(header_size)")]),
+    Twin('twin-precheck-read-helper', RU,
+         "    with open(filename, 'rb') as fd:\n        header = fd.read(100)\n\n"
+         "    if header[:16] != b'SQLite format 3\\x00':",
+         "    magic = b'SQLite format 3\\x00'\n    header = _read_leading_bytes(filename, 100)\n\n"
+         "    if not header[:len(magic)] == magic:",
+         also=[_READ_HELPER]),
     Twin('twin-select-between', REC, _SYS_SRC,
          _SYS_SRC + "                c.execute(\"SELECT count(*) FROM system_iterations\")\n\n"),
 )
